@@ -176,8 +176,8 @@ func (m *roundMon) onReturn(ev *sim.Event, ok bool, err *tss.Error) {
 	}
 	sp := sim.SpecOf(m.w.Proto, ev.Msg.Short)
 	to := ev.Node
-	if sp == nil || !ok {
-		return
+	if sp == nil || !ok || ev.Tag == "flipdup" {
+		return // "flipdup": a wrong-channel copy of a message whose sender is no longer awaited; it must not count for anything
 	}
 	if m.roundBefore == 0 || m.roundBefore <= sp.Round {
 		if m.got[to.Name] == nil {
